@@ -98,6 +98,7 @@ func runC06(cases string, res *Result) {
 	c06ForeignTemplates(res)
 	c06SwitchedOffAndOn(res)
 	c06RenderedOutsideFirst(res)
+	c06LongTemplates(res)
 	readCases(cases, func(c Case) {
 		stream := c.str("stream")
 		res.Hist["stream:"+stream]++
